@@ -112,6 +112,7 @@ pub struct Model {
     pub gmsgs: Vec<GMsg>,
     pub outcome_acc: u64,
     pub v5: Vec<bool>,
+    pub max_out: u64,
 }
 
 pub fn split_share(filter: &str) -> (Option<String>, String) {
@@ -147,6 +148,7 @@ impl Model {
             gmsgs: vec![],
             outcome_acc: 0,
             v5: cfg.v5.clone(),
+            max_out: cfg.max_out,
         }
     }
 
@@ -875,7 +877,9 @@ impl Model {
                         due.sort();
                         let mut seen = s.retained_seen.clone();
                         seen.sort();
-                        if due != seen && due.len() <= 100 {
+                        // "provided those fit in its delivery window"
+                        let window = if s.qos == 0 { self.max_out.min(10_000) as usize } else { 100 };
+                        if due != seen && due.len() <= window {
                             out.push((
                                 "retained_replay".into(),
                                 format!(
